@@ -86,6 +86,11 @@ def csv_case(draw, tier):
     hdrs = st.lists(hname, min_size=1, max_size=3)
     rows = st.lists(st.lists(cell, max_size=4), max_size=4)
     t1 = [draw(hdrs)] + draw(rows)
+    if enc.startswith("utf") and draw(st.integers(0, 5)) == 0:
+        # the very first character written is U+FEFF - an ordinary character of a cell, not a byte order mark to be eaten
+        for r in t1[:2]:
+            if r and isinstance(r[0], str):
+                r[0] = "\ufeff" + r[0]
     nappend = draw(st.sampled_from([0, 0, 1, 2]))
     c = {"encoding": enc, "quoting": quoting, "table": t1, "appends": [[draw(hdrs)] + draw(rows) for _ in range(nappend)],
          "tsv": draw(st.booleans()), "kind": draw(st.sampled_from(KINDS)), "prior": draw(st.booleans()), "write_header": draw(st.sampled_from([True, False, None])),
